@@ -36,7 +36,9 @@ def enc_tag(style: str, k: int, rng: random.Random) -> Any:
     if style == "mixed":
         style = rng.choice(["int", "str", "tuple", "frozenset", "dataclass"])
     if style == "int":
-        return ["int", 100 + k]
+        # (around the base_tag 42 the checks use: a numbering that lets integer tags pass
+        # through unchanged collides with the integers it hands out)
+        return ["int", 40 + k]
     if style == "str":
         return ["str", f"t{k}"]
     if style == "tuple":
@@ -158,7 +160,46 @@ def generate(seed: int, nranks: int | None = None, ncomm: int | None = None) -> 
     used_keys: set[tuple[int, int, str]] = set()
     pair_tag_count: dict[tuple[int, int], int] = {}
     last_recv: dict[int, int] = {}
-    for k in range(K):
+    k0 = 0
+    if R >= 2 and K >= 3 and rng.random() < 0.3:
+        # three-round exchange whose FIRST message carries (an expression of) the send holder
+        # of the THIRD: valid, because a holder's value is the data passed through it
+        #   C: a->b  payload h+h   (h = holder of A2)      round 1
+        #   B: b->a  payload f(recv C)                      round 2
+        #   A2: a->b payload g(recv B), stapled to x        round 3
+        a = rng.randrange(R)
+        b = rng.choice([x for x in range(R) if x != a])
+        tg = [enc_tag("str", 900 + j, rng) for j in range(3)]
+        if not avail[a]:
+            local_op(a)
+        xa = rng.choice(avail[a])
+        # ids are assigned in list order; the receive of B is referenced before it exists in
+        # the list (receives have no operands; builders create them first)
+        base_id = nid[0]
+        rid_b = base_id + 7          # see the order of the add() calls below
+        d_a2 = add({"rank": a, "kind": "op", "op": "neg", "args": [rid_b], "stored": False})
+        h = add({"rank": a, "kind": "send", "comm": 2, "dest": b, "tag": tg[2], "data": d_a2,
+                 "stapled": xa})
+        pc = add({"rank": a, "kind": "op", "op": "add", "args": [h, h], "stored": False})
+        add({"rank": a, "kind": "send", "comm": 0, "dest": b, "tag": tg[0], "data": pc,
+             "stapled": pc})
+        rc = add({"rank": b, "kind": "recv", "comm": 0, "src": a, "tag": tg[0], "shape": [n]})
+        pb = add({"rank": b, "kind": "op", "op": "double", "args": [rc], "stored": False})
+        sb = add({"rank": b, "kind": "send", "comm": 1, "dest": a, "tag": tg[1], "data": pb,
+                  "stapled": rc})
+        got = add({"rank": a, "kind": "recv", "comm": 1, "src": b, "tag": tg[1], "shape": [n]})
+        assert got == rid_b
+        ra2 = add({"rank": b, "kind": "recv", "comm": 2, "src": a, "tag": tg[2], "shape": [n]})
+        add({"rank": b, "kind": "op", "op": "add", "args": [ra2, sb], "stored": False})
+        for t in tg:
+            pass
+        for (s_, d_, t_) in ((a, b, tg[0]), (b, a, tg[1]), (a, b, tg[2])):
+            used_keys.add((s_, d_, repr(t_)))
+        last_recv[a] = got
+        last_recv[b] = ra2
+        k0 = 3
+        desc_motif = True
+    for k in range(k0, K):
         if pattern == "ring":
             s = k % R
             d = (s + 1) % R
@@ -262,24 +303,36 @@ def input_values(desc: dict[str, Any]) -> dict[str, np.ndarray]:
 
 
 def reference(desc: dict[str, Any]) -> dict[int, dict[str, np.ndarray]]:
-    """Global data-flow evaluation: per rank, output name -> value."""
+    """Global data-flow evaluation: per rank, output name -> value.  Demand-driven (the
+    value of a send holder is its stapled operand; a receive takes the value of the matching
+    payload), so the item list need not be in data-flow order."""
     iv = input_values(desc)
+    byid = {it["id"]: it for it in desc["items"]}
+    send_of = {(it["rank"], it["dest"], repr(it["tag"])): it
+               for it in desc["items"] if it["kind"] == "send"}
     val: dict[int, np.ndarray] = {}
-    payload: dict[tuple[int, int, str], np.ndarray] = {}
-    # items are in a global order in which every payload precedes its receive
-    for it in desc["items"]:
+    active: set[int] = set()
+
+    def ev(i: int) -> np.ndarray:
+        if i in val:
+            return val[i]
+        if i in active:
+            raise ValueError("cyclic data flow")
+        active.add(i)
+        it = byid[i]
         k = it["kind"]
         if k in ("in", "dropped_recv"):
-            val[it["id"]] = iv[it["name"]]
+            r = iv[it["name"]]
         elif k == "op":
-            val[it["id"]] = np_op(it["op"], [val[a] if isinstance(a, int) else a
-                                             for a in it["args"]])
+            r = np_op(it["op"], [ev(a) if isinstance(a, int) else a for a in it["args"]])
         elif k == "send":
-            payload[(it["rank"], it["dest"], repr(it["tag"]))] = val[it["data"]]
-            val[it["id"]] = val[it["stapled"]]
-        elif k == "recv":
-            val[it["id"]] = payload[(it["src"], it["rank"], repr(it["tag"]))]
-    return {int(r): {name: val[i] for name, i in names.items()}
+            r = ev(it["stapled"])
+        else:
+            r = ev(send_of[(it["src"], it["rank"], repr(it["tag"]))]["data"])
+        active.discard(i)
+        val[i] = r
+        return r
+    return {int(r): {name: ev(i) for name, i in names.items()}
             for r, names in desc["outputs"].items()}
 
 
